@@ -1154,6 +1154,29 @@ impl Gen {
                         }
                     }
                 }
+                "fail" if self.rng.chance(1, 8) => {
+                    // a big event whose store fails in the middle of its growth loop (injected, or
+                    // for real: no room beyond the next two or three chunks) and is NOT tried
+                    // again; small events keep arriving until the map has to grow once more
+                    let mut e = self.new_event();
+                    let len = self.rng.range(4500, 9500) as usize;
+                    let seed = self.rng.next();
+                    e.content = (0..len).map(|i| (seed.wrapping_mul(i as u64 + 13) >> 9) as u8).collect();
+                    if self.rng.chance(1, 2) {
+                        ops.push(Op::Fail(1000 + self.rng.below(10) as u32));
+                    } else {
+                        ops.push(Op::Fsize(*self.rng.pick(&[9u8, 10])));
+                    }
+                    ops.push(Op::Store(e));
+                    for _ in 0..self.rng.range(8, 26) {
+                        let mut s = self.new_event();
+                        if s.content.len() > 600 {
+                            s.content.truncate(300);
+                        }
+                        self.apply_store_to_gen_model(&s);
+                        ops.push(Op::Store(s));
+                    }
+                }
                 "fail" => {
                     // the next mutating op has one of its fail-point calls fail (a store is then
                     // retried without the fault by the executor)
